@@ -61,14 +61,9 @@ func opConc(req *sb.Req) *sb.Resp {
 	if req.Procs > 0 {
 		defer runtime.GOMAXPROCS(runtime.GOMAXPROCS(req.Procs))
 	}
-	for _, c := range req.Calls {
-		b, err := buildEnv(req.Env, req.Loader, req.Templates, 0, 0)
-		if err != nil {
-			return &sb.Resp{Status: "infra", Err: err.Error()}
-		}
-		resp.Subs2 = append(resp.Subs2, runCall(b.env, c))
-		b.cleanup()
-	}
+	// The concurrent phase comes first: lazily initialised state of the
+	// library must be cold when the goroutines start (the parent restarts the
+	// worker regularly for the same reason).
 	b, err := buildEnv(req.Env, req.Loader, req.Templates, 0, req.Yield)
 	if err != nil {
 		return &sb.Resp{Status: "infra", Err: err.Error()}
@@ -90,5 +85,13 @@ func opConc(req *sb.Req) *sb.Resp {
 	}
 	close(start)
 	wg.Wait()
+	for _, c := range req.Calls {
+		b2, err := buildEnv(req.Env, req.Loader, req.Templates, 0, 0)
+		if err != nil {
+			return &sb.Resp{Status: "infra", Err: err.Error()}
+		}
+		resp.Subs2 = append(resp.Subs2, runCall(b2.env, c))
+		b2.cleanup()
+	}
 	return resp
 }
